@@ -1,15 +1,17 @@
-\* simulation: 4 producers, producer 3 Byzantine (equivocates, Confirms filled the honest way per branch), 3 correct nodes, up to 16 blocks, 2 restarts; all properties
+\* simulation: 4 producers, producer 3 Byzantine (equivocates, Confirms filled the honest way per branch, some of its blocks fail in execute()), 3 correct nodes, up to 16 blocks, 2 restarts, runs of blocks children first; all properties
 SPECIFICATION Spec
 CONSTANTS
   N = 4
   Byz <- Byz3
   Nodes <- Nodes012
-  Blk0 <- NoBlocks
+  Blk0s <- NoBlocks
   MaxBlocks = 16
   MaxRestarts = 2
   ByzMode = "branch"
   ByzRanges <- R123
+  Runs = TRUE
+  BadKinds <- OkExec
   Fixes <- AllFixes
-INVARIANTS TypeOK LibOnMain ConfirmsOnMain Agreement HonestConfirms
-PROPERTIES LibMonotone Final NoForkBelowLib LibQuorum RestoreEqualsRecompute
+INVARIANTS TypeOK LibOnMain ConfirmsOnMain ProposalsOnMain StatusBestIsBest Agreement HonestConfirms
+PROPERTIES LibMonotone Final NoForkBelowLib LibQuorum RestoreEqualsRecompute AfterAbandonedReorgStatusMatchesMainChain
 CHECK_DEADLOCK FALSE
